@@ -169,13 +169,23 @@ def stepFw (pid : String) (d : DrvSt) (op : String) (got : String) : StepResult 
   match op.splitOn " " with
   | ["new", a, sv, cap, dnl, _alg] => newOp a sv cap dnl false
   | ["new", a, sv, cap, dnl, _alg, "ls"] => newOp a sv cap dnl true
+  | ["scope", kind, addr] =>
+    -- scope classification by the real transport constructors against the specification
+    let want := if Spec.scopeLocal kind addr then "L" else "N"
+    if got == "err" then { st := d, cov := ["scope-err"] }
+    else { st := d, expected := some want, cov := ["scope-" ++ want],
+           spec := (if got != want then
+             [(⟨"C09-scope-classification", kind, s!"the {kind} transport for remote address {addr} has scope {got}, the specification says {want}"⟩ : SpecFail)]
+             else []).filter (keepClause pid) }
   | _ =>
   if !d.started then { st := d, expected := some "skip" } else
   match op.splitOn " " with
   | ["face", id, sc, lt] =>
     match id.toNat?, parseLink lt with
     | some id, some lt =>
-      let f : Face := ⟨id, sc == "L", lt⟩
+      -- "tcp4:ADDR" / "tcp6:ADDR": the scope is the one the specification assigns to that remote address
+      let isLocal := if sc.startsWith "tcp" then Spec.scopeLocal ((sc.take 4).toString) ((sc.drop 5).toString) else sc == "L"
+      let f : Face := ⟨id, isLocal, lt⟩
       cfg (step d.m (.addFace f)).1 (Spec.cfgOp d.sp (.addFace f))
     | _, _ => bad
   | ["rmface", id] =>
